@@ -123,6 +123,13 @@ fn check_tonumber(case: &Value, obs: &mut Obs) -> Result<(), String> {
         if other.is_finite() && other != n {
             eq_all_routes(s, &gen::f(other), Some(false), obs)?;
         }
+        // the adjacent doubles are different numbers
+        for up in [true, false] {
+            let adj = if n == 0.0 { if up { 5e-324 } else { -5e-324 } } else { f64::from_bits(if (n > 0.0) == up { n.to_bits() + 1 } else { n.to_bits() - 1 }) };
+            if adj.is_finite() && adj != n {
+                eq_all_routes(s, &gen::f(adj), Some(false), obs)?;
+            }
+        }
         if n.fract() == 0.0 && n.abs() < 9.0e15 {
             eq_all_routes(s, &json!(n as i64), Some(true), obs)?;
         }
